@@ -3,7 +3,11 @@ pub mod gen;
 pub mod spec;
 
 pub mod c01;
+pub mod c02;
+pub mod model;
 pub mod c04;
+pub mod c07;
+pub mod c08;
 pub mod c20;
 
 use crate::core::Stats;
@@ -19,7 +23,10 @@ pub struct Monitor {
 pub fn monitors() -> Vec<Monitor> {
     vec![
         Monitor { id: "C01", case: c01::case, exhaustive: None },
+        Monitor { id: "C02", case: c02::case, exhaustive: None },
         Monitor { id: "C04", case: c04::case, exhaustive: Some(c04::exhaustive) },
+        Monitor { id: "C07", case: c07::case, exhaustive: None },
+        Monitor { id: "C08", case: c08::case, exhaustive: None },
         Monitor { id: "C20", case: c20::case, exhaustive: Some(c20::exhaustive) },
     ]
 }
